@@ -83,6 +83,9 @@ type Ctl struct {
 	// StepLimit is set when MaxSteps was exceeded.
 	StepLimit bool
 
+	// Abandon: do not release parked goroutines at the end of the case.
+	Abandon bool
+
 	// AfterWait runs on the controller after every quiescence wait (before invariants).
 	AfterWait func()
 
@@ -219,8 +222,12 @@ func Run(t *testing.T, parkable []string, schedule []byte, body func(c *Ctl)) (c
 			c.ctlG = Goid()
 			cur.Store(c)
 			body(c)
-			// always leave in pass-through with nothing parked
-			c.PassThrough()
+			// normally leave in pass-through with nothing parked; an abandoned case
+			// (a library mutex was left locked by a panic) keeps everything parked so
+			// that the bubble ends with a recoverable "blocked goroutines" panic
+			if !c.Abandon {
+				c.PassThrough()
+			}
 		})
 	}()
 	return c, bubbleErr
